@@ -19,6 +19,7 @@ class Crash(BaseException):
 
 
 KILL = [False]
+RMTREE_REVERSED = [False]
 
 
 def victim(phase, at):
@@ -103,13 +104,19 @@ class Injector:
             return real_jdump(obj, f, *a, **k)
         def rmtree_(path, *a, **k):
             # shutil.rmtree, one entry at a time (bottom-up), with a kill point before and after every removal
-            for root, dirs, files in os.walk(path, topdown=False):
-                for f in sorted(files):
-                    inj.tick()
-                    os.unlink(os.path.join(root, f))
-                for d_ in sorted(dirs):
-                    inj.tick()
-                    os.rmdir(os.path.join(root, d_))
+            # the order in which a directory lists its entries is arbitrary: both orders are explored (RMTREE_REVERSED)
+            def rm(dirpath):
+                entries = sorted(os.listdir(dirpath), reverse=RMTREE_REVERSED[0])
+                for e in entries:
+                    full = os.path.join(dirpath, e)
+                    if os.path.isdir(full):
+                        rm(full)
+                        inj.tick()
+                        os.rmdir(full)
+                    else:
+                        inj.tick()
+                        os.unlink(full)
+            rm(path)
             inj.tick()
             os.rmdir(path)
             inj.tick()
@@ -295,6 +302,29 @@ def sampler_scenario(at):
             return crashed, [f"earlier rows lost or altered: {len(before)} rows before, {len(after)} after"]
         if len(after) not in (len(before), len(before) + 4):
             return crashed, [f"table has {len(after)} rows: neither the old ({len(before)}) nor the new ({len(before) + 4}) table"]
+        loc = os.path.join(d, ".xyz-c")
+        if os.path.isdir(loc) and os.listdir(loc):
+            # documented recovery; for a sampler a re-sow draws NEW random samples, so nothing grown before may be paired with them
+            pd.DataFrame.to_pickle = real_to_pickle
+            s2 = mk()
+            try:
+                crop = s2.Crop(name="c", parent_dir=d)
+                resow = (not crop.is_prepared()) or crop.num_sown_batches != crop.num_batches
+            except Exception:
+                resow = True
+            try:
+                if resow:
+                    crop = s2.Crop(name="c", parent_dir=d, batchsize=2)
+                    crop.sow_samples(4, verbosity=0)
+                crop.check_bad()
+                crop.grow_missing()
+                got = crop.reap()
+            except xyz.gen.cropping.XYZError:
+                got = None
+            if got is not None:
+                bad = [tuple(r) for r in got[["a", "x"]].itertuples(index=False) if r[1] != fn(r[0])]
+                if bad:
+                    return crashed, [f"recovery reap returned rows whose output is not the function's value at the row's arguments: {bad[:3]}"]
         return crashed, None
 
 
@@ -316,7 +346,8 @@ for kind in ("raw", "runner"):
                     if pr:
                         finish(True, input=dict(crop=kind, stage=stage, crash_at_fs_operation=at, second_crash_at=at2), observed=pr, tried=tried)
             at += 1
-for engine in ("joblib", "h5netcdf"):
+for engine, rev in (("joblib", False), ("h5netcdf", False), ("joblib", True)):
+    RMTREE_REVERSED[0] = rev
     at = 1
     while at < 300:
         tried += 1
@@ -326,13 +357,16 @@ for engine in ("joblib", "h5netcdf"):
         if not crashed:
             break
         at += 1
-at = 1
-while at < 300:
-    tried += 1
-    crashed, pr = sampler_scenario(at)
-    if pr:
-        finish(True, input=dict(stage="reap-and-sync (sampler)", crash_at_fs_operation=at), observed=pr, tried=tried)
-    if not crashed:
-        break
-    at += 1
+for rev in (False, True):
+    RMTREE_REVERSED[0] = rev
+    at = 1
+    while at < 300:
+        tried += 1
+        crashed, pr = sampler_scenario(at)
+        if pr:
+            finish(True, input=dict(stage="reap-and-sync (sampler)", crash_at_fs_operation=at, rmtree_lists_entries_in_reverse=rev), observed=pr, tried=tried)
+        if not crashed:
+            break
+        at += 1
+RMTREE_REVERSED[0] = False
 finish(False, tried=tried)
